@@ -107,6 +107,13 @@ def mismatch_kind(e, p, wild):
     return walk(e, p) or 'nonlinear wildcard'
 
 
+def _wild_depth(t, name, d=0):
+    """greatest depth at which the identifier `name` occurs in t (-1: nowhere)"""
+    if t['k'] == 'id':
+        return d if t['n'] == name else -1
+    return max([_wild_depth(c, name, d + 1) for c in t.get('a', []) + t.get('g', [])] + [-1])
+
+
 def run(tier, chk):
     rnd = random.Random(chk.seed)
     negative_control(chk)
@@ -119,6 +126,12 @@ def run(tier, chk):
     if quick:
         pats = [x for x in pats if rnd.random() < 0.3]
         items = [x for x in items if rnd.random() < 0.6]
+    # partial substitutions in which one occurrence of the repeated wildcard sits INSIDE a compound sub-pattern that the
+    # expression contains literally (the expression mentions the wildcard's own identifier there): four nodes with every
+    # node kind, five nodes over + and ^
+    deep = [x for x in gen_derived(4, [8, 32], ['+'], ['patpart'], chk) + gen_derived(5, [8], ['+', '^'], ['patpart'], chk, rich=False)
+            if _wild_depth(x['pat'], x['wild'][0]['n']) >= 2]
+    pats += [x for x in deep if not quick or rnd.random() < 0.12]
     # slices of concatenations (a slice that starts or ends inside a part) need four nodes and the width 16
     items += [x for x in gen_derived(4, [8, 16], ['+'], ['plain'], chk) if x['e']['k'] in ('slice', 'compose', 'cond', 'mem')]
     if quick:
